@@ -13,7 +13,15 @@ tie    : * translator (every run)
            gen_C06.py, theorems kernel_calls_clean, ctor_aliases_unedited) validated by watching
            every compiled kernel for the whole run (harness/c06_wide.py: KernelWatch) and
            compared with the compiled model (driver requests kclean / kwritten / ctorclean)
-search : for every class spec (shared with C01): snapshot (deep copy) every cached value,
+         * round 4: named link-attribute slots written inside value-returning methods
+           (translate/attrs_C06.py -> attrTables, theorems attr_queries_pure / attr_tables_ok): the
+           compiled slot model predicts, per query chain on fresh twins of real objects, which
+           answers differ from a fresh object and which generating expression each attribute left
+           behind holds (harness/c06_attr.py)
+search : round 4: every public value-returning method is a query, whatever it writes (the measures
+         that store a link attribute included); all queries in opposite orders on two fresh twins;
+         integer link lengths; obligation listing the value-returning methods never queried.
+         For every class spec (shared with C01): snapshot (deep copy) every cached value,
          every array field and every caller-supplied input, run one query, re-query
          everything: any change is an interference; constructors of derived objects on a
          shared ClimateData / on caller arrays; public functions taking arrays; every public
@@ -32,6 +40,7 @@ import numpy as np
 from . import common
 from .c01 import SPECS, same, quiet, brief, query_variants, SKIP_QUERIES, skip_now, public_queries
 from . import c06_wide
+from . import c06_attr
 
 
 def snap(v):
@@ -152,6 +161,7 @@ def _run(ctx, eff, own_tables, watch):
         if os.path.exists(f):
             os.remove(f)
     rounds = [(cname, mk, r) for cname, mk in SPECS.items() for r in range(2 if quick else 8)]
+    used, raised = {}, {}
     for cname, mk, rnd in rounds:
         spec = mk()
         cls = spec["cls"]
@@ -170,13 +180,14 @@ def _run(ctx, eff, own_tables, watch):
                 elif isinstance(v, tuple) and v and isinstance(v[0], np.ndarray):
                     inputs[k] = v[0].copy()
         queries = []
-        cand = set(n for n in dir(cls) if hasattr(getattr(cls, n, None), "cache_info")) | \
-            public_queries(cls, tables.get(cname, {}))
-        for m in sorted(cand):
-            if m in SKIP_QUERIES:
-                continue
+        # round 4: every public method that returns a value is a query, whatever it writes — the
+        # measures that store a link attribute (classified as mutators by C01's table) included
+        for m in c06_attr.all_queries(cls):
             for kw in query_variants(cls, m, spec["argsets"]):
                 queries.append((m, kw))
+        by_c01 = set(tables.get(cname, {}).get("mutators", {}))
+        ctx.count(f"{cname}:attribute-setting-measures-as-queries",
+                  len({m for m, _ in queries if m in by_c01}))
         usable = []
         base = {}
         for m, kw in queries:
@@ -185,8 +196,10 @@ def _run(ctx, eff, own_tables, watch):
             try:
                 base[(m, str(kw))] = snap(quiet(getattr(obj, m), **kw))
                 usable.append((m, kw))
+                used.setdefault(cname, set()).add(m)
             except Exception as ex:  # noqa
                 ctx.count(f"{cname}:query-raises:{type(ex).__name__}")
+                raised.setdefault(cname, set()).add(m)
         # repeated deterministic query returns an equal value
         for m, kw in usable:
             again = quiet(getattr(obj, m), **kw)
@@ -263,6 +276,17 @@ def _run(ctx, eff, own_tables, watch):
     watch.pool = []
     ctx.correspond("purity model over the translator's effect summaries predicts the observed "
                    "q2;q1;q2 interference flags", reqs, impl)
+
+    # round 4: order independence against fresh twins, link-attribute slots, coverage
+    watch.context = "order/attr oracles"
+    for cname, mk in SPECS.items():
+        spec = mk()             # incl. InteractingNetworks (node-list recipes)
+        for _ in range(1 if quick else 3):
+            c06_attr.order_oracle(ctx, cname, spec, used, quick)
+    c06_attr.attr_oracle(ctx, eff, SPECS, used, quick)
+    c06_attr.int_length_oracle(ctx, used, quick)
+    c06_attr.coverage(ctx, eff, SPECS, used,
+                      {c: {m for m in ms if m not in used.get(c, ())} for c, ms in raised.items()})
 
     constructors(ctx)
     array_functions(ctx)
